@@ -2,6 +2,7 @@
 import ast
 
 from .core import AnalysisError, iter_nodes, norm, unparse
+from .canon import is_zero_test
 from . import astq
 from .astq import (parents, ancestors, calls_named, mentions_attr, mentions_name, definitions,
                    sole_definition, resolve_value, enclosing_loops, enclosing_ifs, const_int)
@@ -685,15 +686,28 @@ def rule_GA1(ctx, rep):
     # _decrement: decrement by one, then complete when zero
     d = [s for s in iter_nodes(dec.node) if isinstance(s, ast.AugAssign) and isinstance(s.op, ast.Sub)
          and isinstance(s.target, ast.Attribute) and s.target.attr == 'tally' and const_int(s.value) == 1]
-    fin = [i for i in iter_nodes(dec.node) if isinstance(i, ast.If) and isinstance(i.test, ast.UnaryOp) and isinstance(i.test.op, ast.Not)
-           and isinstance(i.test.operand, ast.Attribute) and i.test.operand.attr == 'tally' and calls_named(i, 'set_result')]
+    def _tally_zero_branch(i):
+        """statements executed when the tally is zero, for an `if` on the tally (any spelling)."""
+        z = is_zero_test(i.test)
+        if z is not None and isinstance(z, ast.Attribute) and z.attr == 'tally':
+            return i.body
+        t = i.test
+        if isinstance(t, ast.Attribute) and t.attr == 'tally':
+            return i.orelse
+        if isinstance(t, ast.Compare) and len(t.ops) == 1 and isinstance(t.ops[0], ast.NotEq) and \
+                any(isinstance(x, ast.Attribute) and x.attr == 'tally' for x in (t.left, t.comparators[0])) and \
+                any(isinstance(x, ast.Constant) and x.value == 0 for x in (t.left, t.comparators[0])):
+            return i.orelse
+        return None
+    fin = [i for i in iter_nodes(dec.node) if isinstance(i, ast.If) and _tally_zero_branch(i) is not None
+           and any(calls_named(x, 'set_result') for x in _tally_zero_branch(i))]
     if d and fin and astq.position(d[0]) < astq.position(fin[0]):
         rep.ok('GA1', dec, fin[0], 'decrement by one, then complete when the tally is zero')
     else:
         rep.bad('GA1', dec, dec.qualname, '_decrement does not (decrement by one and then) complete the gather exactly at zero', dec.node)
     # __init__: zero tally completes immediately, else keep obj
-    z = [i for i in iter_nodes(ini.node) if isinstance(i, ast.If) and isinstance(i.test, ast.UnaryOp) and isinstance(i.test.op, ast.Not)
-         and isinstance(i.test.operand, ast.Attribute) and i.test.operand.attr == 'tally' and calls_named(i, 'set_result')]
+    z = [i for i in iter_nodes(ini.node) if isinstance(i, ast.If) and _tally_zero_branch(i) is not None
+         and any(calls_named(x, 'set_result') for x in _tally_zero_branch(i))]
     addcall = calls_named(ini.node, '_add_callbacks')
     if z and addcall and astq.position(addcall[0]) < astq.position(z[0]):
         rep.ok('GA1', ini, z[0], 'nothing pending: result set immediately (awaiting already-completed results)')
